@@ -101,10 +101,13 @@ def judge(name, box, params, status, out, second=None, hull_limit=HULL_LIMIT, hu
                 fails.append({"prop": "C14", "kind": "missed_inconsistency",
                               "detail": "no tuple of %r satisfies the constraint but status=%d output=%r"
                                         % (box, status, out)})
-        elif status != INC and out != hull:
-            if contains(out, hull):  # sound but weaker; unsound ones are C05's
-                fails.append({"prop": "C14", "kind": "not_hull",
-                              "detail": "output %r differs from the bounds hull %r" % (out, hull)})
+        elif status == INC:
+            fails.append({"prop": "C14", "kind": "inconsistency_although_satisfiable",
+                          "detail": "inconsistency reported but the bounds hull of %r is %r" % (box, hull)})
+        elif out != hull:
+            # weaker than the hull (sound) or smaller than it (unsound: C05 reports that one as well)
+            fails.append({"prop": "C14", "kind": "not_hull" if contains(out, hull) else "smaller_than_hull",
+                          "detail": "output %r differs from the bounds hull %r" % (out, hull)})
     if name == "affine_eq":
         ref = O.interval_round_affine_eq(box, params)
         if status != INC:
